@@ -610,6 +610,15 @@ func (f *FeaturesByID) FindReferences(id b6.FeatureID, typed ...b6.FeatureType) 
 }
 
 func (f *FeaturesByID) findPathsByPoint(id b6.FeatureID, paths []b6.FeatureID) []b6.FeatureID {
+	// A path that visits a point more than once is recorded against the point
+	// once per visit; return it once, as the in-memory world does.
+	add := func(fb *featureBlock, path Reference) {
+		_, ns := path.TypeAndNamespace.Split()
+		pid := b6.FeatureID{Type: b6.FeatureTypePath, Namespace: fb.NamespaceTable.Decode(ns), Value: path.Value}
+		if !slices.Contains(paths, pid) {
+			paths = append(paths, pid)
+		}
+	}
 	for _, fb := range f.features[b6.FeatureTypePoint] {
 		if ns, ok := fb.NamespaceTable.MaybeEncode(id.Namespace); ok && ns == fb.Namespaces[b6.FeatureTypePoint] {
 			t, ok := fb.Map.FindFirst(id.Value)
@@ -618,21 +627,18 @@ func (f *FeaturesByID) findPathsByPoint(id b6.FeatureID, paths []b6.FeatureID) [
 				case PointTagCommon:
 					var p CommonPoint
 					p.Unmarshal(&fb.Namespaces, t.Data)
-					_, ns := p.Path.TypeAndNamespace.Split()
-					paths = append(paths, b6.FeatureID{Type: b6.FeatureTypePath, Namespace: fb.NamespaceTable.Decode(ns), Value: p.Path.Value})
+					add(fb, p.Path)
 				case PointTagFull:
 					var p FullPoint
 					p.Unmarshal(&fb.Namespaces, t.Data)
 					for _, path := range p.Paths {
-						_, ns := path.TypeAndNamespace.Split()
-						paths = append(paths, b6.FeatureID{Type: b6.FeatureTypePath, Namespace: fb.NamespaceTable.Decode(ns), Value: path.Value})
+						add(fb, path)
 					}
 				case PointTagReferencesOnly:
 					var r PointReferences
 					r.Unmarshal(&fb.Namespaces, t.Data)
 					for _, path := range r.Paths {
-						_, ns := path.TypeAndNamespace.Split()
-						paths = append(paths, b6.FeatureID{Type: b6.FeatureTypePath, Namespace: fb.NamespaceTable.Decode(ns), Value: path.Value})
+						add(fb, path)
 					}
 				}
 			}
@@ -710,27 +716,35 @@ func (f *FeaturesByID) fillPathSegments(point b6.FeatureID, path b6.FeatureID, s
 			}
 			var p Path
 			p.Unmarshal(&fb.Namespaces, b)
-			previous := 0
-			var position int
-			next := p.PathLen(fb.Strings) - 1
-			var pf b6.PhysicalFeature
-			for i := 0; i < p.PathLen(fb.Strings); i++ {
+			n := p.PathLen(fb.Strings)
+			// A closed path (or one that otherwise revisits a point) passes through
+			// the point more than once. The in-memory world indexes a point by
+			// its last position along a path, so start from there too.
+			position := -1
+			for i := 0; i < n; i++ {
 				if id, ok := p.Reference(i, fb.Strings); ok {
-					if pf == nil {
-						_, ns := id.TypeAndNamespace.Split()
-						if id.Value == point.Value && fb.NamespaceTable.Decode(ns) == point.Namespace {
-							pf = b6.WrapPhysicalFeature(f.newPathFromEncodedPath(fb, path.Value, &p), f)
-							position = i
-						} else if f.isGraphNode(id) {
-							previous = i
-						}
-					} else if f.isGraphNode(id) {
+					_, ns := id.TypeAndNamespace.Split()
+					if id.Value == point.Value && fb.NamespaceTable.Decode(ns) == point.Namespace {
+						position = i
+					}
+				}
+			}
+			if position >= 0 {
+				pf := b6.WrapPhysicalFeature(f.newPathFromEncodedPath(fb, path.Value, &p), f)
+				previous := 0
+				for i := position - 1; i > 0; i-- {
+					if id, ok := p.Reference(i, fb.Strings); ok && f.isGraphNode(id) {
+						previous = i
+						break
+					}
+				}
+				next := n - 1
+				for i := position + 1; i < n-1; i++ {
+					if id, ok := p.Reference(i, fb.Strings); ok && f.isGraphNode(id) {
 						next = i
 						break
 					}
 				}
-			}
-			if pf != nil {
 				if previous != position {
 					segments = append(segments, b6.Segment{Feature: pf, First: position, Last: previous})
 				}
@@ -758,21 +772,21 @@ func (f *FeaturesByID) isGraphNode(point Reference) bool {
 				case PointTagCommon:
 					var p CommonPoint
 					p.Unmarshal(&fb.Namespaces, t.Data)
-					if len(p.Tags) > 0 {
+					if len(p.Tags) > 1 { // The location of the point is itself a tag
 						return true
 					}
-					paths++
+					paths += f.countPaths(References{p.Path})
 				case PointTagFull:
 					var p FullPoint
 					p.Unmarshal(&fb.Namespaces, t.Data)
-					if len(p.Tags) > 0 {
+					if len(p.Tags) > 1 { // The location of the point is itself a tag
 						return true
 					}
-					paths += len(p.Paths)
+					paths += f.countPaths(p.Paths)
 				case PointTagReferencesOnly:
 					var r PointReferences
 					r.Unmarshal(&fb.Namespaces, t.Data)
-					paths += len(r.Paths)
+					paths += f.countPaths(r.Paths)
 				}
 				if paths > 1 {
 					return true
@@ -781,6 +795,27 @@ func (f *FeaturesByID) isGraphNode(point Reference) bool {
 		}
 	}
 	return false
+}
+
+// countPaths returns the number of distinct paths in refs that are present
+// in the index. A point records a reference for each visit of each path
+// seen in the source data, including paths that were subsequently dropped
+// as invalid, neither of which make the point an intersection.
+func (f *FeaturesByID) countPaths(refs References) int {
+	n := 0
+	for i, r := range refs {
+		if slices.Contains(refs[0:i], r) {
+			continue
+		}
+		_, ns := r.TypeAndNamespace.Split()
+		for _, fb := range f.features[b6.FeatureTypePath] {
+			if fb.Namespaces[b6.FeatureTypePath] == ns && fb.Map.FindFirstWithTag(r.Value, encoding.NoTag) != nil {
+				n++
+				break
+			}
+		}
+	}
+	return n
 }
 
 func (f *FeaturesByID) FindRelationsByFeature(id b6.FeatureID) b6.RelationFeatures {
@@ -812,7 +847,12 @@ func (f *FeaturesByID) fillRelationsFromPoint(fb *featureBlock, id uint64, relat
 		var p FullPoint
 		// TODO: don't need to unmarshal everything
 		p.Unmarshal(&fb.Namespaces, t.Data)
-		for _, r := range p.Relations {
+		for i, r := range p.Relations {
+			if slices.Contains(p.Relations[0:i], r) {
+				// A relation that lists the point as a member more than once
+				// is recorded once per membership.
+				continue
+			}
 			for _, rm := range f.features[b6.FeatureTypeRelation] {
 				if _, ns := r.TypeAndNamespace.Split(); ns == rm.Namespaces[b6.FeatureTypeRelation] {
 					relations = append(relations, f.newRelation(rm, r.Value))
